@@ -53,20 +53,20 @@ Accepted subset (anything else raises TranslateError with file:line):
   statements  x = e;  x op= e (+ - *);  P = e / P op= e for a path P (attributes of the records, constant
               string keys, d[k], l[i]);  if / elif / else (a conditional followed by more statements
               that can leave on some path gets the following statements copied into both branches);
-              for over range(..), a str, enumerate(list), a dict / .keys() / .items() (two targets, or one
+              for over range(..), a str, enumerate(list), a dict / .keys() / .values() / .items() (two targets, or one
               target holding the pair when the dict is not changed in the loop), a list value
               (no else; while the loop runs the iterated container may only be changed by stores to
               EXISTING positions: `d[k] = v` for the loop's own key, `l[i] = v`; then the loop reads the
               live element by key / index, else it iterates the pairs);  continue;  return [e];
-              try: .. except [E [as x]]: .. with one handler (ZeroDivisionError, KeyError, IndexError,
-              TypeError, IOError, Exception or bare; `raise` re-raises);  with open(..) as f;
+              try: .. except [E [as x]]: .. [else: ..] with one handler (ZeroDivisionError, KeyError, IndexError,
+              TypeError, IOError, Exception or bare; `raise` re-raises; the else block is not protected);  with open(..) as f;
               f.write(e);  print(..) (arguments evaluated for their exceptions, output dropped);
               make_sure_path_exists(..) (dropped: the OS is not modelled);  docstrings;  pass;
               calls of translated functions as statements, as a whole right-hand side or as a whole
               `if [not] f(..):` test (positional / keyword arguments, defaults filled in).
   expressions names; int / float / str constants; + - * / on ints and floats (int / int and float / int
               raise ZeroDivisionError on a zero divisor, an int operand of a float operation is
-              converted with zfloat: exact below 2^53); + on strings; unary -; comparisons of ints
+              converted with zfloat: exact below 2^53); + on strings; unary -; comparisons of ints, also chained
               (and == / != of strings and characters); in / not in (key in dict, character in str or in
               a literal list of one-character constants); not / and / or of expressions that cannot
               raise; len; str; math.log; math.floor; s[a:b]; s[i]; t[0] / t[1] on tuples; tuple
@@ -274,7 +274,7 @@ RESERVED = set("""fs exn tt true false nil Some None Z N TOk TRaise tbind tget t
 tlen tslice tindex tsetindex trange tenumerate nv_int nv_item NCount NLevel zfloat int_truediv float_div float_div_int
 pystr_int zcnt_get path_join fs_put most_common_by rev map fst snd forallb existsb negb Continue Return repeat al_blank ag_blank
 call_save_config float_div float_div_int zcount
-mlog mfloor mrepr save_config EKey EIndex EZeroDiv EType EIO texn_eqb
+mlog mfloor mrepr save_config EKey EIndex EZeroDiv EType EIO texn_eqb ttry_else
 fun let in if then else match with end forall exists Type Prop Set SProp as at return fix cofix struct where using
 for mod""".split()) | {s["coq"] for s in SPECS}
 for _r in RECORDS.values():
@@ -616,7 +616,19 @@ class FunctionTranslator:
 
     def compare(self, e, env):
         if len(e.ops) != 1 or len(e.comparators) != 1:
-            self.fail(e, "chained comparison")
+            # a OP b OP c is (a OP b) and (b OP c) with b evaluated once: accepted for operands that cannot raise
+            # (and have no effect: everything in the subset), ints only
+            parts = []
+            operands = [e.left] + list(e.comparators)
+            n = len(self.pre)
+            for l, op, r in zip(operands, e.ops, operands[1:]):
+                if isinstance(op, (ast.In, ast.NotIn)):
+                    self.fail(e, "chained comparison with `in`")
+                one = ast.copy_location(ast.Compare(l, [op], [r]), e)
+                parts.append(_paren(self.scalar(self.compare(one, env), e)))
+            if len(self.pre) != n:
+                self.fail(e, "a chained comparison must not contain a sub-expression that can raise")
+            return V(BOOL, "(" + " && ".join(parts) + ")")
         op, right = e.ops[0], e.comparators[0]
         if isinstance(op, (ast.In, ast.NotIn)):
             t = self.member(e, e.left, right, env)
@@ -1579,7 +1591,7 @@ class FunctionTranslator:
         else:
             mode = "keys"
             src = it
-            if is_call and isinstance(it.func, ast.Attribute) and it.func.attr in ("items", "keys") and not it.args:
+            if is_call and isinstance(it.func, ast.Attribute) and it.func.attr in ("items", "keys", "values") and not it.args:
                 mode, src = it.func.attr, it.func.value
             elif is_call:
                 src = it
@@ -1596,6 +1608,12 @@ class FunctionTranslator:
                     lst, pattern = cur, s.target.id
                 elif mode == "items":
                     a, b = targets(2)
+                elif mode == "values":
+                    # for v in d.values(): the key gets a name of its own (it is what a live loop iterates)
+                    (b,) = targets(1)
+                    a = b + "_key"
+                    if a in env.vars or a in body_assigned:
+                        self.fail(s, "the name %r is needed for the key of the loop over .values()" % a)
                 else:
                     (a,), b = targets(1), None
                 if a is None:
@@ -1605,7 +1623,7 @@ class FunctionTranslator:
                     # set stays (checked at every store): iterate the keys, read the live value by key
                     lst, pattern = "map fst %s" % _paren(cur), a
                     live = ("dict", p, a, b)
-                elif mode == "items":
+                elif mode in ("items", "values"):
                     lst, pattern = cur, "'(%s, %s)" % (a, b)
                     self.loop_value(fresh, b, v.ty.val)
                 else:
@@ -1669,8 +1687,10 @@ class FunctionTranslator:
         fresh(name, ("root", ty) if is_container(ty) else ("val", ty))
 
     def try_(self, s, rest, env, k, ind):
-        if s.orelse or s.finalbody or len(s.handlers) != 1:
-            self.fail(s, "try is supported with one handler, no else / finally")
+        if s.finalbody or len(s.handlers) != 1:
+            self.fail(s, "try is supported with one handler, no finally")
+        if s.orelse:
+            return self.try_else(s, rest, env, k, ind)
         h = s.handlers[0]
         if h.type is None:
             catches = "(fun _ => true)"
@@ -1695,6 +1715,53 @@ class FunctionTranslator:
         out += _close(self.block(list(s.body), env.copy(), kk, ind + 2), ")")
         out += self.line(ind + 1, "%s (fun exn =>" % catches, h)
         out += _close(self.block(list(h.body), henv, kh, ind + 2), ")")
+        out += self.line(ind, "(fun %s =>" % pat)
+        out += _close(self.block(rest, env, k, ind), ")")
+        return out
+
+    def handler_head(self, s):
+        h = s.handlers[0]
+        if h.type is None or (isinstance(h.type, ast.Name) and h.type.id == "Exception"):
+            return h, "(fun _ => true)"
+        if isinstance(h.type, ast.Name) and h.type.id in EXC:
+            return h, "(fun exn => texn_eqb exn %s)" % EXC[h.type.id]
+        self.fail(s, "unsupported exception class")
+
+    def try_else(self, s, rest, env, k, ind):
+        """try: A except E: H else: B.  B runs after A when A did not raise and is NOT protected by the handler:
+        ttry_else A catches H B k, where A hands the variables B and the rest need on to B"""
+        h, catches = self.handler_head(s)
+        names = self.carried(list(s.body) + list(h.body) + list(s.orelse), env, s)
+        tup, pat = self.state_text(names)
+        env_a = env.copy()
+        used_later = {n.id for st in list(s.orelse) for n in ast.walk(st) if isinstance(n, ast.Name)}
+
+        def mid_names():
+            new = [n for n in env_a.vars if n not in env.vars and env_a.vars[n][0] == "val" and n in used_later]
+            return names + [n for n in new if n not in names]
+
+        def fall_a(_n):
+            return "Continue %s" % self.state_text(mid_names())[0]
+
+        ka = K(fall_a, lambda n: "Return %s" % _paren(k.cont(n)), lambda n, v: "Return %s" % _paren(k.retv(n, v)))
+        kj = K(lambda _n: "Continue %s" % tup, ka.cont, ka.retv)
+        kh = K(kj.fall, kj.cont, kj.retv, reraise="TRaise exn")
+        henv = env.copy()
+        if h.name:
+            self.check_name(s, h.name)
+            if h.name in env.vars:
+                self.fail(s, "the exception variable %r is already bound" % h.name)
+            henv.vars[h.name] = ("exc", None)
+        out = self.line(ind, "ttry_else (", s)
+        out += _close(self.block(list(s.body), env_a, ka, ind + 2), ")")
+        out += self.line(ind + 1, "%s (fun exn =>" % catches, h)
+        out += _close(self.block(list(h.body), henv, kh, ind + 2), ")")
+        mid = mid_names()
+        env_b = env.copy()
+        for n in mid:
+            env_b.vars[n] = env_a.vars[n]
+        out += self.line(ind + 1, "(fun %s =>" % self.state_text(mid)[1], s.orelse[0])
+        out += _close(self.block(list(s.orelse), env_b, kj, ind + 2), ")")
         out += self.line(ind, "(fun %s =>" % pat)
         out += _close(self.block(rest, env, k, ind), ")")
         return out
